@@ -38,18 +38,44 @@
 #include <cpuid.h>
 #endif
 
+#if SKINNY_X86_CPUID
+
+/* Queries a CPUID leaf and sub-leaf.  All four registers are zero if
+   the leaf is beyond the highest basic leaf that the CPU supports */
+static void skinny_cpuid(uint32_t leaf, uint32_t subleaf, uint32_t regs[4])
+{
+    regs[0] = regs[1] = regs[2] = regs[3] = 0;
+    if (__get_cpuid_max(0, 0) >= leaf)
+        __cpuid_count(leaf, subleaf, regs[0], regs[1], regs[2], regs[3]);
+}
+
+#if SKINNY_VEC256_MATH && defined(__AVX2__)
+
+/* Reads extended control register 0, which reports the register
+   state that the operating system saves and restores */
+static uint64_t skinny_xgetbv0(void)
+{
+    uint32_t lo, hi;
+    __asm__ __volatile__ (
+        ".byte 0x0f, 0x01, 0xd0"    /* xgetbv */
+        : "=a"(lo), "=d"(hi) : "c"(0)
+    );
+    return (((uint64_t)hi) << 32) | lo;
+}
+
+#endif
+
+#endif /* SKINNY_X86_CPUID */
+
 int _skinny_has_vec128(void)
 {
     int detected = 0;
 #if SKINNY_VEC128_MATH
 #if SKINNY_X86_CPUID && defined(__SSE2__)
     /* 128-bit SIMD vectors are available on x86 if we have SSE2 */
-    uint32_t eax = 0;
-    uint32_t ebx = 0;
-    uint32_t ecx = 0;
-    uint32_t edx = 0;
-    __cpuid(1, eax, ebx, ecx, edx);
-    detected = (edx & (1 << 26)) != 0;
+    uint32_t regs[4];
+    skinny_cpuid(1, 0, regs);
+    detected = (regs[3] & (1 << 26)) != 0;
 #elif defined(__arm) || defined(__arm__)
 #if defined(__ARM_NEON) || defined(__ARM_NEON__) || defined(__ARM_NEON_FP)
     /* Don't know how to do a runtime check so assume that if the user
@@ -66,13 +92,17 @@ int _skinny_has_vec256(void)
     int detected = 0;
 #if SKINNY_VEC256_MATH
 #if SKINNY_X86_CPUID && defined(__AVX2__)
-    /* 256-bit SIMD vectors are available on x86 if we have AVX2 */
-    uint32_t eax = 0;
-    uint32_t ebx = 0;
-    uint32_t ecx = 0;
-    uint32_t edx = 0;
-    __cpuid(7, eax, ebx, ecx, edx);
-    detected = (ebx & (1 << 5)) != 0;
+    /* 256-bit SIMD vectors are available on x86 if the CPU has AVX2
+       (leaf 7, sub-leaf 0) and the operating system has enabled the
+       saving of the XMM and YMM registers (OSXSAVE plus XCR0 bits 1-2) */
+    uint32_t regs[4];
+    skinny_cpuid(1, 0, regs);
+    if ((regs[2] & (1 << 27)) != 0 && (regs[2] & (1 << 28)) != 0) {
+        if ((skinny_xgetbv0() & 0x06) == 0x06) {
+            skinny_cpuid(7, 0, regs);
+            detected = (regs[1] & (1 << 5)) != 0;
+        }
+    }
 #endif
 #endif
     return detected;
